@@ -96,6 +96,11 @@ class Setup:
             def save_transaction_for_debugging(self, transaction):
                 pass
         self.net = simnet.Net(rng)
+        # the peers' connections take a limited number of bytes per writable event in a third of the set-ups (a found block
+        # with a well-filled pool is larger than that: it leaves in several pieces)
+        self.net.send_window = rng.choice([None, None, 300, 4096])
+        if self.net.send_window:
+            mon.c["setups_with_small_send_buffers"] = mon.c.get("setups_with_small_send_buffers", 0) + 1
         mining.time = self.net.clock
         clk = self.net.clock
         mining.sleep = lambda seconds, _c=clk: setattr(_c, "t", _c.t + 1)     # waiting lets the virtual clock move on
@@ -663,6 +668,7 @@ def finalize(m, tier):
                    ("conflicting_offers_to_the_pool", c.get("conflicting_offers_to_the_pool", 0), 40),
                    ("found_after_the_head_moved", c.get("found_after_the_head_moved", 0), 10),
                    ("first_candidates_after_head_change_found", c.get("first_candidates_after_head_change_found", 0), 20),
+                   ("setups_with_small_send_buffers", c.get("setups_with_small_send_buffers", 0), 15),
                    ("found_after_own_block_was_reorganised_away", c.get("found_after_own_block_was_reorganised_away", 0), 15),
                    ("pooled_spend_of_abandoned_output", c.get("pooled_spend_of_abandoned_output", 0), 8)],
         "extra": {},
